@@ -5,7 +5,7 @@ from __future__ import annotations
 from . import _compose, sdl_ko
 
 RULE = 'map-style and iterator-style datasets with 1-3 failing items / failing collate / failing worker_init_fn, any num_workers, batch size, prefetch factor, schedule policy; consumer catches and continues over 2 epochs; expected observation sequence derived from the documentation. Non-trivial: at least one error with num_workers>0; distinct by (configuration, failing set, policy).'
-EXPLANATION = 'Lean: TDV.SP.error_position_* and TDV.MP.error_position_partial (+ refuted full statement for interval>1 = known finding). Tie: SP K-D / MP K-T with failing tasks. Oracle: catch-and-continue consumer on the real loader.'
+EXPLANATION = 'Lean: TDV.SP.error_position_* and TDV.MP.error_position (full strength after the repair of the map-style snapshot trigger). Tie: SP K-D / MP K-T with failing tasks. Oracle: catch-and-continue consumer on the real loader.'
 ASSUMPTIONS = ["worker processes are virtual processes under harness/vsched.py (real _worker_loop, deep-copied arguments, pickled queue payloads)"]
 
 PARTS = [_compose.ko_part("ko", sdl_ko.gen_c10, sdl_ko.check_c10, 200, 4000, known=None)]
